@@ -75,4 +75,47 @@ TEXT.update({
                 technique="exhaustive enumeration of a bounded domain + random PBT against a reference implementation"),
 })
 
+TEXT.update({
+    "C10": dict(engine="cont", ref="DESIGN.md 5/C10",
+                note="Trusted: logging leaves / slab in /verif; libstdc++ only. 12 container kinds x {typed, type-erased} "
+                     "std_allocator, int / pair<const int,int> / char elements for the op sequences; element types "
+                     "Elem<S,A> (S 1..128, A 1..16) for the generated node-size sweep.",
+                level="Generated container op sequences (insert/erase/copy/move/assign/swap/splice across two allocator "
+                      "objects) against a differential std::allocator reference; every release is validated by the "
+                      "owning leaf; std_allocator equality compared with the observed owner. Plus a generated-source "
+                      "sweep instantiating every node container for Elem<S,A> against X_node_size<T>.",
+                technique="stateful PBT + differential oracle + generated-source type sweep"),
+    "C11": dict(engine="obj", ref="DESIGN.md 5/C11",
+                note="Trusted: logging leaf / slab. Catalogue of 17 joint types (one or two joint_arrays, vector, "
+                     "vector+array+string, iterator-range arrays) with element sizes/alignments 1..16.",
+                level="Joint objects created with generous, exact-fit and one-byte-short additional sizes at generated "
+                      "address residues; member ranges, upstream shape, clean failure, single release, clone "
+                      "independence checked; clone/move/swap/reset histories on three joint_ptrs.",
+                technique="stateful PBT; layout validity predicate + upstream call-log oracle"),
+    "C13": dict(engine="thr", ref="DESIGN.md 5/C13",
+                note="Trusted: the instrumented mutex and allocator shell in targets/thr.cpp. The deterministic oracle "
+                     "decides the mechanism for 4 storage policies and every forwarding member; free-running stress "
+                     "samples schedules (no scheduler control inside std::mutex).",
+                level="Instrumented mutex + allocator shell: at every entry into the wrapped allocator the storage's own "
+                      "mutex must be held by the calling thread and released afterwards, for all forwarding members and "
+                      "the lock() proxy; stateless allocators instantiate and lock nothing; free-running multi-threaded "
+                      "phases with a concurrent-entry detector.",
+                technique="PBT over member-call sequences with a lock-held invariant; multi-threaded stress"),
+    "C14": dict(engine="thr", ref="DESIGN.md 5/C14",
+                note="Trusted: the actor/scheduler harness in targets/thr.cpp; schedules are generated at operation "
+                     "granularity (each step runs to completion on its thread), not inside the list operations.",
+                level="Every case runs in a forked child: generated nestings of temporary_allocator scopes (address-replay "
+                      "oracle) and generated schedules of 2-4 real threads (start / initializer / use / scope / exit as "
+                      "scheduled steps) under a holding model (no two live threads on one stack, stacks reused), then a "
+                      "normal process exit whose leak reports are captured; modes 2 and 1.",
+                technique="stateful PBT over thread schedules (harness-owned scheduler) + fork-per-case exit observation"),
+    "C20": dict(engine="obj", ref="DESIGN.md 5/C20",
+                note="Trusted: the ledger element type and logging leaf in targets/obj.cpp.",
+                level="For each helper / joint_array constructor form and every length 0..16 the number of element "
+                      "creations is measured, then a constructor failure is injected at a generated index (first, last, "
+                      "any): ledger (each object destroyed exactly once), exception identity, memory returned with "
+                      "matching shape, helper usable afterwards.",
+                technique="fault injection at generated constructor indices over a ledger-instrumented element type"),
+})
+
 NOT_APPLICABLE = {}
